@@ -10,6 +10,7 @@ CONSTANTS
   FixSave = TRUE
   FixRecover = FALSE
   FixRelease = TRUE
+  SplitCleanup = FALSE
 VIEW View
 INVARIANT AccountedEqualsLive
 INVARIANT Coherent
